@@ -23,7 +23,7 @@ META = dict(
     level_note=('Partial: utils.merge, utils.transform, merge_into_list and the error outcomes of canonicalize on arbitrary path-keyed dicts are modelled and checked by correspondence and oracle only (no theorem yet). '
                 'Not modelled: custom key objects, bool keys, tuples, MISSING_VALUE leaves, pg.Object nodes, regex/where of pg.query, user merge functions, subtree aliasing. '
                 'Trusted: Coq kernel, stdlib DecimalZ, extraction cross-checked by vm_compute, the Python harness (generators, driver, exception canonicalisation), CPython str.isdigit/int/str comparison. '
-                'Open finding: the path key "$" collides with the trie end marker (quirk flag q_dollar).'),
+                'No open finding: the collision of the path key "$" with the trie end marker was repaired (b919440); the quirk flag q_dollar stays in the model and is set by replaying the witness.'),
     rule=('a case is one modelled operation with its inputs (key list / path string / path pair / KeyPathSet op sequence / nested value); distinct by the '
           'canonical case tree; non-trivial when it has a key with a delimiter, digit or non-ASCII character, a negative or multi-digit integer, '
           'an error outcome, a set sequence with at least 3 ops, or a value of depth >= 2'),
